@@ -4,8 +4,9 @@
   Modelled code (rog-works/tranp):
     rogw/tranp/semantics/procedure.py   Procedure.__init__ (21-29: the whole per-instance state is `__stacks`, `__verbose`,
                                         `__emitter`), on / off / clear_handler (31-53), exec (55-70)
-    rogw/tranp/lang/middleware.py       Middleware.on (57-69), off (71-85), usable (87-95), emit / __emit (97-123, handlers
-                                        without a `next` parameter: the first handler of the action is called), clear (125-127)
+    rogw/tranp/lang/middleware.py       Middleware.on (57-69), off (71-85), usable (87-95), emit / __emit (97-123: the newest
+                                        handler of the action is called; one that declares `next` gets a thunk that runs the
+                                        rest of the chain with the same event), clear (125-127)
 
   The instance state is exactly what `Generated/ProcedureState.lean` lists (read from the source on every run); `__verbose`
   only switches logging and is not modelled. Nothing is remembered per node: `exec` reads the tree it is given.
@@ -15,22 +16,42 @@ import Tranp.Model.Procedure
 namespace Tranp.Procedure
 open Tranp
 
+/-- sequencing of handler programs: run `p`, continue with its result (an exception propagates) -/
+def HProg.bind {R : Type} : HProg R → (R → HProg R) → HProg R
+  | .ret r, f => f r
+  | .fail e, _ => .fail e
+  | .call root k, f => .call root (fun r => (k r).bind f)
+  | .tryCall root k, f => .tryCall root (fun x => (k x).bind f)
+
+/-- a registered callback: a plain handler, or one that declares a `next` parameter (middleware.py:119-121) and receives
+    the program of "the rest of the chain on the same event", which it may run any number of times (`HProg.bind`) or not at all -/
+inductive CB (R : Type) where
+  | plain (h : Handler R)
+  | chained (h : PNode → Event R → HProg R → HProg R)
+
+/-- `Middleware.__emit(action, event, index)` (middleware.py:109-123) from `index` on; past the end `handlers[index]`
+    raises IndexError (inside the caller of `next`) -/
+def composeCB {R : Type} : List (Nat × CB R) → Handler R
+  | [], _, _ => .fail .indexError
+  | (_, .plain h) :: _, n, ev => h n ev
+  | (_, .chained h) :: rest, n, ev => h n ev (composeCB rest n ev)
+
 /-- `Middleware.__handlers`: action → callbacks (newest first). A callback is identified by an id (Python: object identity). -/
-abbrev Emitter (R : Type) := List (Str × List (Nat × Handler R))
+abbrev Emitter (R : Type) := List (Str × List (Nat × CB R))
 
 section
 variable {R : Type}
 
-def Emitter.get (em : Emitter R) (action : Str) : Option (List (Nat × Handler R)) :=
+def Emitter.get (em : Emitter R) (action : Str) : Option (List (Nat × CB R)) :=
   (em.find? (fun e => e.1 == action)).map (·.2)
 
-def Emitter.set (em : Emitter R) (action : Str) (hsl : List (Nat × Handler R)) : Emitter R :=
+def Emitter.set (em : Emitter R) (action : Str) (hsl : List (Nat × CB R)) : Emitter R :=
   match em with
   | [] => [(action, hsl)]
   | (a, l) :: rest => if a == action then (a, hsl) :: rest else (a, l) :: Emitter.set rest action hsl
 
 /-- `Middleware.on` (middleware.py:57-69): new action → `[callback]`; known callback → no change; else insert in front -/
-def Emitter.on (em : Emitter R) (action : Str) (id : Nat) (h : Handler R) : Emitter R :=
+def Emitter.on (em : Emitter R) (action : Str) (id : Nat) (h : CB R) : Emitter R :=
   match em.get action with
   | none => em ++ [(action, [(id, h)])]
   | some l => if l.any (fun x => x.1 == id) then em else em.set action ((id, h) :: l)
@@ -46,11 +67,11 @@ def Emitter.off (em : Emitter R) (action : Str) (id : Nat) : Except Err (Emitter
       if l'.isEmpty then .ok (em.filter (fun e => !(e.1 == action))) else .ok (em.set action l')
     else .error (.other "ValueError".toList)
 
-/-- `usable` + `emit` for handlers without `next`: the first callback of the action -/
+/-- `usable(action)` and `emit(action, …)`: the chain of the action's callbacks, newest first -/
 def Emitter.first (em : Emitter R) (action : Str) : Option (Handler R) :=
   match em.get action with
-  | some ((_, h) :: _) => some h
-  | _ => none
+  | some l => some (composeCB l)
+  | none => none
 
 /-- the handler table `__action` (procedure.py:128-134) sees: `on_<classification>`, else `on_fallback` -/
 def Emitter.table (em : Emitter R) : Handlers R :=
@@ -63,7 +84,7 @@ structure PState (R : Type) where
 
 /-- one call on the instance -/
 inductive Call (R : Type) where
-  | on (action : Str) (id : Nat) (h : Handler R)
+  | on (action : Str) (id : Nat) (h : CB R)
   | off (action : Str) (id : Nat)
   | clear
   | exec (root : PNode)
